@@ -1035,6 +1035,28 @@ def check_bonferroni(ctx):
                             detail='the level of a bin depends on the '
                                    'position of the bin in the array '
                                    'instead of the rank of its p-value')
+            # ranks that are not a permutation: searchsorted (and rankdata
+            # unless method='ordinal') give tied p-values the SAME rank,
+            # whereas tied bins occupy consecutive ranks of the procedure
+            for call in walk_local(meth.node):
+                if isinstance(call, ast.Call) and (
+                        call_name(call) == 'searchsorted' or (
+                            call_name(call) == 'rankdata' and not any(
+                                k.arg == 'method' and isinstance(
+                                    k.value, ast.Constant) and
+                                k.value.value == 'ordinal'
+                                for k in call.keywords))) and any(
+                                    V.mentions(a, pder | {pname})
+                                    for a in call.args):
+                    ctx.violated(
+                        'LEVEL-LIN', meth,
+                        f'ranks of the p-values from {txt(call)[:60]}',
+                        at=meth.where(call),
+                        detail='tied p-values get the same rank: the levels '
+                               'are no longer alpha/m, alpha/(m-1), ... '
+                               'each used once, the bins of a tie all get '
+                               'the smallest level of the group and fewer '
+                               'bins are flagged')
             _check_holm_level_vector(ctx, program, meth, lname)
             _check_unsort(ctx, meth, pname)
         elif is_holm:
